@@ -89,6 +89,8 @@ mod error;
 mod eval;
 mod ir;
 mod stdlib;
+#[cfg(feature = "verif-hooks")]
+pub mod verif;
 
 use data::{
     ArrayData, BuiltInFunc, FuncData, FuncKind, FuncParams, ObjectData, ObjectLayer,
@@ -210,6 +212,8 @@ pub struct Program<'p> {
     identity_func: GcView<FuncData<'p>>,
     ext_vars: FHashMap<InternedStr<'p>, GcView<ThunkData<'p>>>,
     native_funcs: FHashMap<InternedStr<'p>, GcView<FuncData<'p>>>,
+    #[cfg(feature = "verif-hooks")]
+    verif: verif::VerifState,
 }
 
 struct Exprs<'p> {
@@ -261,6 +265,8 @@ impl<'p> Program<'p> {
             identity_func,
             ext_vars: FHashMap::default(),
             native_funcs: FHashMap::default(),
+            #[cfg(feature = "verif-hooks")]
+            verif: verif::VerifState::default(),
         };
         this.load_stdlib(stdlib_span_ctx);
         this
@@ -288,14 +294,26 @@ impl<'p> Program<'p> {
 
     /// Runs garbage collection unconditionally.
     pub fn gc(&mut self) {
+        #[cfg(feature = "verif-hooks")]
+        {
+            self.verif.gc_runs += 1;
+        }
         self.gc_ctx.gc();
         self.objs_after_last_gc = self.gc_ctx.num_objects();
     }
 
     /// Runs garbage collection under certain conditions.
     pub fn maybe_gc(&mut self) {
+        #[cfg(feature = "verif-hooks")]
+        if self.verif_maybe_gc() {
+            return;
+        }
         let num_objects = self.gc_ctx.num_objects();
         if num_objects > 1000 && (num_objects / 2) > self.objs_after_last_gc {
+            #[cfg(feature = "verif-hooks")]
+            {
+                self.verif.heuristic_gc_runs += 1;
+            }
             self.gc();
         }
     }
